@@ -244,7 +244,7 @@ def run(rep, tier, seed):
     _install_paren()
     rng = random.Random(seed * 1000003 + 9)
     quick = tier == "quick"
-    n = 700 if quick else 20000
+    n = 1500 if quick else 20000
     mg_small = GM.ModelGen(rng, 3, 5, 8)
     mg_big = GM.ModelGen(rng, 5, 10, 20)
     groups = []
@@ -339,7 +339,7 @@ def alias_pass(rep, rng, quick):
     tg = G.TypedGen(rng)
     ug = G.Gen(rng)
     texts = []
-    n = 2500 if quick else 40000
+    n = 6000 if quick else 40000
     for i in range(n):
         x = rng.random()
         if x < 0.55:
